@@ -39,10 +39,27 @@ func (e *caseEval) atom(c ssa.Value) string {
 // atomPol canonicalises a condition: x != y under polarity p is x == y under !p.
 func (e *caseEval) atomPol(c ssa.Value, pol bool) (string, bool) {
 	if b, ok := c.(*ssa.BinOp); ok && b.Op == token.NEQ {
-		l, r := e.termOf(b.X), e.termOf(b.Y)
+		l, r := orderOperands(e.termOf(b.X), e.termOf(b.Y))
 		return "(" + l + "==" + r + ")", !pol
 	}
 	return e.termOf(c), pol
+}
+
+// orderOperands gives the operands of a commutative comparison a canonical order: constants to the right,
+// otherwise the shorter term (then the lexicographically smaller) first.
+func orderOperands(l, r string) (string, string) {
+	isConst := func(s string) bool {
+		return s == "nil" || s == "true" || s == "false" || (len(s) > 0 && (s[0] == '"' || s[0] >= '0' && s[0] <= '9' || s[0] == '-'))
+	}
+	switch {
+	case isConst(l) && !isConst(r):
+		return r, l
+	case isConst(r) && !isConst(l):
+		return l, r
+	case len(l) > len(r) || (len(l) == len(r) && l > r):
+		return r, l
+	}
+	return l, r
 }
 
 // termOf renders a value, resolving inlined parameters in the caller's context.
@@ -170,7 +187,13 @@ func (e *caseEval) cases(v ssa.Value, d int) []vcase {
 			}
 		}
 		l, r := e.cases(x.X, d+1), e.cases(x.Y, d+1)
-		return e.cross([][]vcase{l, r}, func(ts []string) string { return "(" + ts[0] + x.Op.String() + ts[1] + ")" })
+		return e.cross([][]vcase{l, r}, func(ts []string) string {
+			a, b := ts[0], ts[1]
+			if x.Op == token.EQL || x.Op == token.NEQ {
+				a, b = orderOperands(a, b)
+			}
+			return "(" + a + x.Op.String() + b + ")"
+		})
 	case *ssa.Call:
 		com := x.Common()
 		if f := com.StaticCallee(); f != nil && e.p.InModule(f) && e.depth < 2 && f.Blocks != nil && len(f.Blocks) <= 6 && !callsItself(f) && returnsValue(f) && inlinable(f) {
